@@ -25,6 +25,7 @@ import Driver.Routing
 import Driver.ChanRouting
 import Driver.PendingDetach
 import Driver.Chunks
+import Driver.Dispose
 
 structure DState where
   sess : Amqp.Session.St := Amqp.Session.init 0 0 0
@@ -66,6 +67,7 @@ def handle (st : DState) (line : String) : DState × String :=
     | none => (st, "bad-op")
   | "B" :: ws => (st, (Driver.PendingDetach.step ws).getD "bad-op")
   | "O" :: ws => (st, (Driver.Chunks.step ws).getD "bad-op")
+  | "A" :: ws => (st, (Driver.Dispose.step ws).getD "bad-op")
   | "J" :: ws =>
     match Driver.ChanRouting.step st.chans ws with
     | some (s, out) => ({ st with chans := s }, out)
